@@ -16,6 +16,7 @@
 
 #include "jls/bit_shift.h"
 #include "jls/ec.h"
+#include <string.h>
 
 int32_t jls_bit_shift_array_right(uint8_t bits, void * data, size_t size) {
     if ((bits == 0) || (size == 0)) {
@@ -36,4 +37,30 @@ int32_t jls_bit_shift_array_right(uint8_t bits, void * data, size_t size) {
         carry = u8[i] >> bits;
     }
     return 0;
+}
+
+void jls_bit_copy(uint8_t * dst, size_t dst_bit, const uint8_t * src, size_t src_bit, size_t bit_count) {
+    if ((0 == (dst_bit & 7)) && (0 == (src_bit & 7))) {
+        size_t sz = bit_count >> 3;
+        if (sz) {
+            memcpy(dst + (dst_bit >> 3), src + (src_bit >> 3), sz);
+        }
+        dst_bit += sz << 3;
+        src_bit += sz << 3;
+        bit_count -= sz << 3;
+    }
+    while (bit_count) {
+        size_t d_off = dst_bit & 7;
+        size_t s_off = src_bit & 7;
+        size_t n = 8 - ((d_off > s_off) ? d_off : s_off);  // bits available in both current bytes
+        if (n > bit_count) {
+            n = bit_count;
+        }
+        uint8_t mask = (uint8_t) (((1U << n) - 1U) << d_off);
+        uint8_t v = (uint8_t) ((src[src_bit >> 3] >> s_off) << d_off);
+        dst[dst_bit >> 3] = (uint8_t) ((dst[dst_bit >> 3] & ~mask) | (v & mask));
+        dst_bit += n;
+        src_bit += n;
+        bit_count -= n;
+    }
 }
